@@ -3,6 +3,7 @@ from __future__ import annotations
 
 import ast
 import copy
+import re
 
 import sympy as sp
 from sympy import Symbol, Function, Integer
@@ -155,41 +156,160 @@ def _asint(x):
     return x if integral(sp.expand(x)) else TRUNC(x)
 
 
-def _uniformity_assumption(test, stmts, n):
-    """what a guard says about the model: ('const', value expr) when it states that all entries of an array are equal,
-    ('zero', value expr) when they all vanish, ('single',) when there is only one radius, None when it is not understood"""
+def _single_defs(stmts):
     defs = {}
     for st in stmts:
         if isinstance(st, ast.Assign) and len(st.targets) == 1:
             defs.setdefault(src(st.targets[0]), []).append(st.value)
-    e = test
-    for _ in range(4):
-        if isinstance(e, (ast.Name, ast.Attribute)) and len(defs.get(src(e), [])) == 1:
-            e = defs[src(e)][0]
-        elif isinstance(e, ast.Call) and src(e.func) == "bool" and len(e.args) == 1:
-            e = e.args[0]
-        else:
-            break
-    cmp_ = None
-    if isinstance(e, ast.Call) and src(e.func) in ("np.all", "all", "np.alltrue") and len(e.args) == 1:
-        cmp_ = e.args[0]
-    elif isinstance(e, ast.Call) and isinstance(e.func, ast.Attribute) and e.func.attr == "all" and not e.args:
-        cmp_ = e.func.value
-    if isinstance(cmp_, ast.Compare) and len(cmp_.ops) == 1 and isinstance(cmp_.ops[0], ast.Eq):
-        a, b = cmp_.left, cmp_.comparators[0]
+    return defs
+
+
+def _call_name(c):
+    return c.func.attr if isinstance(c.func, ast.Attribute) else c.func.id if isinstance(c.func, ast.Name) else ""
+
+
+def _reduced_operand(c, names):
+    """operand X of `np.<name>(X)` / `<name>(X)` / `X.<name>()` with <name> in names, else None"""
+    if not isinstance(c, ast.Call) or c.keywords or _call_name(c) not in names:
+        return None
+    if isinstance(c.func, ast.Attribute) and not (isinstance(c.func.value, ast.Name) and c.func.value.id in ("np", "numpy")):
+        return c.func.value if not c.args else None
+    return c.args[0] if len(c.args) == 1 else None
+
+
+def _guard_facts(test, stmts, n, polarity=True):
+    """what a guard says about the per-radius model when it has the truth value `polarity`:
+    (facts, complete) with facts a list of ('const', value) - all entries of the array with this generic element are equal -,
+    ('zero', value) - they all vanish -, ('single',) - there is only one local radius; `complete` is False when a part of the
+    condition was not understood (the facts found are still implied by the guard, but it may say more).
+    Normalised forms: locals / attributes bound once stand for their definition, bool(), not, and/or (De Morgan),
+    np.all(A == B) / (A == B).all() / not np.any(A != B), np.ptp(A) == 0, A.max() == A.min(), len(set(A)) == 1,
+    np.unique(A).size == 1, np.all(np.diff(A) == 0), comparisons of the number of radii with 1"""
+    defs = _single_defs(stmts)
+
+    def deref(e):
+        for _ in range(6):
+            if isinstance(e, (ast.Name, ast.Attribute)) and len(defs.get(src(e), [])) == 1:
+                e = defs[src(e)][0]
+            elif isinstance(e, ast.Call) and src(e.func) in ("bool", "np.bool_") and len(e.args) == 1 and not e.keywords:
+                e = e.args[0]
+            else:
+                break
+        return e
+
+    def val(e):
         try:
-            if isinstance(b, ast.Subscript) and src(b.value) == src(a) and isinstance(b.slice, ast.Constant):
-                return ("const", n.ev(a))
-            if isinstance(a, ast.Subscript) and src(a.value) == src(b) and isinstance(a.slice, ast.Constant):
-                return ("const", n.ev(b))
-            if isinstance(b, ast.Constant) and b.value == 0:
-                return ("zero", n.ev(a))
+            v = n.ev(e)
         except Undecided:
             return None
-    if isinstance(e, ast.Compare) and len(e.ops) == 1 and isinstance(e.ops[0], (ast.Eq, ast.LtE)) and isinstance(e.comparators[0], ast.Constant) \
-            and e.comparators[0].value == 1 and src(e.left) in ("len(r)", "r.size", "r.shape[0]", "nR"):
-        return ("single",)
-    return None
+        return v if isinstance(v, sp.Basic) else None
+
+    def first_elem_of(a, b):
+        """is b = a[<const>] (any fixed entry of a)?"""
+        b = deref(b) if isinstance(b, ast.Name) else b
+        return isinstance(b, ast.Subscript) and isinstance(b.slice, ast.Constant) and (src(b.value) == src(a) or src(deref(b.value)) == src(deref(a)))
+
+    def count_of_radii(e):
+        e = deref(e)
+        s_ = src(e)
+        if s_ in ("len(r)", "r.size", "r.shape[0]", "nR", "np.size(r)"):
+            return True
+        m_ = re.fullmatch(r"len\((\w+)\)|(\w+)\.size|(\w+)\.shape\[0\]", s_)
+        if m_:
+            v = n.env.get(next(x for x in m_.groups() if x))
+            return isinstance(v, sp.Basic) and bool(v.free_symbols)
+        return False
+
+    def all_equal(e, pol):
+        """facts of an elementwise comparison reduced by all (pol True) / of `not any(...)` (pol False)"""
+        e = deref(e)
+        if isinstance(e, ast.Compare) and len(e.ops) == 1:
+            want = ast.Eq if pol else ast.NotEq
+            a, b = e.left, e.comparators[0]
+            if isinstance(e.ops[0], want):
+                if first_elem_of(a, b) and val(a) is not None:
+                    return [("const", val(a))]
+                if first_elem_of(b, a) and val(b) is not None:
+                    return [("const", val(b))]
+                if isinstance(b, ast.Constant) and b.value == 0 and not isinstance(b.value, bool):
+                    d = _reduced_operand(deref(a), {"diff", "ediff1d"})
+                    if d is not None and val(d) is not None:
+                        return [("const", val(d))]
+                    if val(a) is not None:
+                        return [("zero", val(a))]
+                if isinstance(a, ast.Constant) and a.value == 0 and not isinstance(a.value, bool) and val(b) is not None:
+                    return [("zero", val(b))]
+        return None
+
+    def facts_of(e, pol):
+        e = deref(e)
+        if isinstance(e, ast.UnaryOp) and isinstance(e.op, ast.Not):
+            return facts_of(e.operand, not pol)
+        if isinstance(e, ast.BoolOp):
+            conj = isinstance(e.op, ast.And) == pol          # and under True / or under False: every part has polarity `pol`
+            if conj:
+                out, complete = [], True
+                for v in e.values:
+                    f, c = facts_of(v, pol)
+                    out += f
+                    complete = complete and c
+                return out, complete
+            return [], False
+        x = _reduced_operand(e, {"all", "alltrue"})
+        if x is not None and pol:
+            f = all_equal(x, True)
+            return (f, True) if f is not None else ([], False)
+        x = _reduced_operand(e, {"any", "sometrue"})
+        if x is not None and not pol:
+            f = all_equal(x, False)
+            if f is None and not isinstance(deref(x), ast.Compare) and val(x) is not None:
+                f = [("zero", val(x))]            # not any(x): every entry of x is zero
+            return (f, True) if f is not None else ([], False)
+        if isinstance(e, ast.Compare) and len(e.ops) == 1:
+            a, b, op = deref(e.left), deref(e.comparators[0]), e.ops[0]
+            one = lambda t: isinstance(t, ast.Constant) and t.value == 1 and not isinstance(t.value, bool)
+            zero = lambda t: isinstance(t, ast.Constant) and t.value == 0 and not isinstance(t.value, bool)
+            # number of local radii against 1
+            if count_of_radii(a) and isinstance(b, ast.Constant) and isinstance(b.value, int) and not isinstance(b.value, bool):
+                import operator
+                cmp_ = {ast.Eq: operator.eq, ast.NotEq: operator.ne, ast.Lt: operator.lt, ast.LtE: operator.le, ast.Gt: operator.gt,
+                        ast.GtE: operator.ge}.get(type(op))
+                if cmp_ is None:
+                    return [], False
+                # the sizes (1, 2, many) for which the guard has the truth value `pol`: only size 1 -> a single radius
+                sat = [k_ for k_ in (1, 2, 3, 1000) if cmp_(k_, b.value) == pol]
+                return ([("single",)], True) if sat == [1] else ([], True)      # e.g. `size > 1` says nothing about the values
+            eq = isinstance(op, ast.Eq) == pol and isinstance(op, (ast.Eq, ast.NotEq))
+            if eq:
+                x = _reduced_operand(a, {"count_nonzero"}) if zero(b) else (_reduced_operand(b, {"count_nonzero"}) if zero(a) else None)
+                if x is not None and val(x) is not None:
+                    return [("zero", val(x))], True
+                # spread of the values is zero
+                x = _reduced_operand(a, {"ptp"}) if zero(b) else (_reduced_operand(b, {"ptp"}) if zero(a) else None)
+                if x is not None and val(x) is not None:
+                    return [("const", val(x))], True
+                xa, xb = _reduced_operand(a, {"max", "amax", "min", "amin"}), _reduced_operand(b, {"max", "amax", "min", "amin"})
+                if xa is not None and xb is not None and src(xa) == src(xb) and _call_name(a)[-3:] != _call_name(b)[-3:] and val(xa) is not None:
+                    return [("const", val(xa))], True
+                # one distinct value
+                for u, w in ((a, b), (b, a)):
+                    if one(w):
+                        inner = None
+                        if isinstance(u, ast.Call) and _call_name(u) == "len" and len(u.args) == 1:
+                            inner = deref(u.args[0])
+                        elif isinstance(u, ast.Attribute) and u.attr == "size":
+                            inner = deref(u.value)
+                        x = _reduced_operand(inner, {"set", "unique"}) if inner is not None else None
+                        if x is not None and val(x) is not None:
+                            return [("const", val(x))], True
+        return [], False
+    return facts_of(test, polarity)
+
+
+def _uniformity_assumption(test, stmts, n):
+    """first fact of the guard (kept for the callers that need one assumption only); None when nothing was understood"""
+    facts, complete = _guard_facts(test, stmts, n)
+    return facts[0] if facts and complete else None
 
 
 def unmodelled_rebinding(chk, fn, stmts, n, g, keys):
@@ -209,35 +329,62 @@ def unmodelled_rebinding(chk, fn, stmts, n, g, keys):
         hit = [x for x in stored if src(x.targets[0] if isinstance(x, ast.Assign) else x.target).split("[")[0] in read]
         if not hit:
             continue
-        # recognised form: `if <cond>: r = r[:k]` - the tables get fewer rows than there are local radii
-        cut = [x for x in hit if isinstance(st, ast.If) and isinstance(x, ast.Assign) and isinstance(x.targets[0], ast.Name)
-               and n.env.get(x.targets[0].id) == r and isinstance(x.value, ast.Subscript) and src(x.value.value) == x.targets[0].id
-               and isinstance(x.value.slice, ast.Slice) and x.value.slice.step is None
-               and (x.value.slice.lower is None or src(x.value.slice.lower) == "0") and isinstance(x.value.slice.upper, ast.Constant)]
-        if cut and len(hit) == len(cut) and not st.orelse:
-            what = _uniformity_assumption(st.test, stmts, n)
+        # recognised form: `if <cond>: X = X[:k]` for per-radius arrays X (the local radii or quantities computed from them) - the
+        # tables get fewer rows than there are local radii
+        def per_radius(name):
+            v = n.env.get(name)
+            return isinstance(v, sp.Basic) and r in v.free_symbols
+
+        def is_cut(x):
+            if not (isinstance(x, ast.Assign) and len(x.targets) == 1 and isinstance(x.targets[0], ast.Name) and per_radius(x.targets[0].id)):
+                return False
+            v = x.value
+            if not (isinstance(v, ast.Subscript) and src(v.value) == x.targets[0].id):
+                return False
+            sl = v.slice
+            return isinstance(sl, ast.Slice) and sl.step is None and (sl.lower is None or src(sl.lower) == "0") and \
+                isinstance(sl.upper, ast.Constant) and isinstance(sl.upper.value, int) and sl.upper.value >= 1
+        cut = [x for x in hit if isinstance(st, ast.If) and is_cut(x)]
+        arm = None
+        if cut and len(hit) == len(cut) and isinstance(st, ast.If) and len({src(x.value.slice) for x in cut}) == 1:
+            in_body = all(any(x is y for y in ast.walk(ast.Module(body=st.body, type_ignores=[]))) for x in cut)
+            in_else = all(any(x is y for y in ast.walk(ast.Module(body=st.orelse, type_ignores=[]))) for x in cut)
+            arm = True if in_body else (False if in_else else None)
+        if cut and arm is not None:
+            facts_, complete = _guard_facts(st.test, stmts, n, arm)
+            cond_txt = src(st.test) if arm else f"not ({src(st.test)})"
             tables = {k: n.env.get(k) for k in ("zDist", "self._shifts", "self._thetaShifts", "self._lagrangeCoeffs") if isinstance(n.env.get(k), sp.Basic)}
             dep = {}
+            uni = Symbol("uniform_value")
+            assumed = []
             for k, v in tables.items():
-                if what is not None and what[0] in ("const", "zero") and isinstance(what[1], sp.Basic):
-                    v = v.subs(what[1], Symbol("uniform_value") if what[0] == "const" else Integer(0))
+                for f_ in facts_:
+                    if f_[0] in ("const", "zero") and isinstance(f_[1], sp.Basic):
+                        v = v.subs(f_[1], uni if f_[0] == "const" else Integer(0))
                 if r in v.free_symbols:
                     dep[k] = v
-            if what == ("single",):
-                ok, why = True, f"`{src(cut[0])}` under `{src(st.test)}` keeps the only local radius"
-            elif what is None or not tables:
-                ok, why = None, (f"`{src(cut[0])}` under `{src(st.test)[:60]}` cuts the local radii the tables are built for; the condition is "
+            for f_ in facts_:
+                if f_[0] in ("const", "zero"):
+                    assumed.append(f"{f_[1]} {'the same on all local surfaces' if f_[0] == 'const' else '= 0 on all local surfaces'}")
+            if ("single",) in facts_:
+                ok, why = True, f"`{src(cut[0])}` under `{cond_txt}` keeps the only local radius"
+            elif not tables:
+                ok, why = None, (f"`{src(cut[0])}` under `{cond_txt[:60]}` cuts the local radii the tables are built for; the tables are outside "
+                                 "the model: whether the omitted rows would equal the kept one is not decided")
+            elif not dep and facts_:
+                ok, why = True, (f"`{src(cut[0])}` under `{cond_txt}`: with {' and '.join(assumed)} none of the tables depends on r, one row serves "
+                                 "every radius")
+            elif not facts_ or not complete:
+                ok, why = None, (f"`{src(cut[0])}` under `{cond_txt[:60]}` cuts the local radii the tables are built for; the condition is "
                                  "outside the model: whether the omitted rows would equal the kept one is not decided")
-            elif dep:
-                k0 = "zDist" if "zDist" in dep else sorted(dep)[0]
-                ok, why = False, (f"when `{src(st.test)}` holds the tables are built for the first local radius only (`{src(cut[0])}`), i.e. every "
-                                  f"flux surface is advected with the tables of that radius; but `{k0}` = {dep[k0]} still depends on r when "
-                                  f"{what[1]} is the same on all surfaces" + (" (through b_z = 1/sqrt(1 + (r iota/R0)^2))" if k0 in ("zDist", "self._shifts") else "") +
-                                  ": all surfaces but the first get the foot of the first one")
             else:
-                ok, why = True, (f"`{src(cut[0])}` under `{src(st.test)}`: with {what[1]} {'equal on all surfaces' if what[0] == 'const' else '= 0'} none of "
-                                 "the tables depends on r, one row serves every radius")
+                k0 = "zDist" if "zDist" in dep else sorted(dep)[0]
+                ok, why = False, (f"when `{cond_txt}` holds the tables are built for the first local radius only (`{src(cut[0])}`), i.e. every "
+                                  f"flux surface is advected with the tables of that radius; but `{k0}` = {dep[k0]} still depends on r when "
+                                  f"{' and '.join(assumed)}" + (" (through b_z = 1/sqrt(1 + (r iota/R0)^2))" if k0 in ("zDist", "self._shifts") else "") +
+                                  ": all surfaces but the first get the foot of the first one")
             chk.ob("F6-radial-table", st, f"if {src(st.test)[:50]}: {src(cut[0])}", ok, why, file=U.ADV, func=q)
+            _store(chk).setdefault("_c10_radial", []).append((st, ok, why))
             continue
         names = sorted({src(x.targets[0] if isinstance(x, ast.Assign) else x.target).split("[")[0] for x in hit})
         chk.ob("F6-lagrange-geometry", st, f"{type(st).__name__.lower()} {src(st).splitlines()[0][:60]}", None,
@@ -245,13 +392,49 @@ def unmodelled_rebinding(chk, fn, stmts, n, g, keys):
                "outside the straight-line element-wise model, the formulas above are those of the unconditional part only", file=U.ADV, func=q)
 
 
+def _store(chk):
+    return getattr(chk, "_real", chk).__dict__
+
+
+class _OnlyRule:
+    """view of a check that records the obligations of one rule only (the element-wise model is shared between properties)"""
+
+    def __init__(self, chk, rule):
+        self._real, self._rule = chk, rule
+
+    def __getattr__(self, name):
+        return getattr(self._real, name)
+
+    def ob(self, rule, *a, **k):
+        if rule == self._rule:
+            return self._real.ob(rule, *a, **k)
+
+    def pat(self, rule, node, construct, ok, good, bad=None, **kw):
+        if rule == self._rule:
+            return self._real.pat(rule, node, construct, ok, good, bad, **kw)
+
+
+def radial_tables(chk):
+    """rule F6-radial-table alone (for C05: the tables of every local radius are those of that radius): [(node, verdict, diagnosis)];
+    emitted once per check"""
+    st = _store(chk)
+    if "_c10_lagrange_done" not in st:
+        try:
+            lagrange_points(_OnlyRule(chk, "F6-radial-table"))
+        except Exception:          # noqa: BLE001 - the model is auxiliary here: C10 reports what it cannot follow, engine C keeps its verdicts
+            st["_c10_lagrange_done"] = True
+    return st.get("_c10_radial", [])
+
+
 def lagrange_points(chk):
+    _store(chk)["_c10_lagrange_done"] = True
     fn = chk.func(U.ADV, f"{CLS}._getLagrangePts")
     q = f"{CLS}._getLagrangePts"
     g = geometry_env()
     z1 = Symbol("z1", real=True)
     n = NpSym(env={"R0": g["R0"], "dt": g["dt"], "iota": g["iota"], "__asint": _asint}, hooks={})
-    stmts = [ast.fix_missing_locations(_AsType().visit(copy.deepcopy(st))) for st in lagrange_statements(chk, fn)]
+    from .C05 import library_forms
+    stmts = [ast.fix_missing_locations(_AsType().visit(library_forms(copy.deepcopy(st)))) for st in lagrange_statements(chk, fn)]
     # the z grid is uniform: eta_grid[2][k] = z1 + (k-1) dz; the local radii and velocities are symbols (their index spaces are
     # engine C's subject)
     for st in stmts:
@@ -262,6 +445,8 @@ def lagrange_points(chk):
                 n.hooks[src(nd)] = g["v"]
             if isinstance(nd, ast.Subscript) and src(nd.value) == "eta_grid[0]" and isinstance(nd.slice, ast.Slice):
                 n.hooks[src(nd)] = g["r"]
+    n.hooks.setdefault("eta_grid[0]", g["r"])
+    n.hooks.setdefault("eta_grid[3]", g["v"])
     n.hooks["self._zLagrangePts"] = Symbol("nL", integer=True, positive=True)
     alloc = lambda st: isinstance(st, ast.Assign) and isinstance(st.value, ast.Call) and src(st.value.func) in (
         "np.ndarray", "np.empty", "np.zeros") and not isinstance(st.targets[0], ast.Subscript)
@@ -273,7 +458,26 @@ def lagrange_points(chk):
     shifts = sp.floor(zDist / dz) + K
     # every quantity is compared with the formula of the property applied to the code's own upstream quantities, so that a wrong
     # definition is reported where it is made (and not again for everything derived from it); the absolute forms are in `facts`
-    up = lambda key, dflt: n.env.get(key) if n.env.get(key) is not None else dflt
+    # what a shift table MEANS is fixed by its reader: the kernel stores the value for column i, entry j at row i - S_j and evaluates
+    # it at theta_k + T_j.  S_j / T_j are the table entries themselves in the reference convention; when the kernel reads the tables
+    # with another convention (sign, offset - see F6-table-writer) the effective shifts are compared with the formulas of the property
+    conv, point_wrapped = None, False
+    try:
+        conv = writer_rule(chk).get("conv")
+        point_wrapped = bool(writer_rule(chk).get("point_wrapped"))
+    except (AnalysisError, Undecided, KeyError):
+        conv = None
+    eff = {key: n.env.get(key) for key, *_ in [("bz",), ("dtheta",), ("zDist",), ("self._shifts",), ("self._thetaShifts",), ("zDiff",)]}
+    conv_note = ""
+    if conv is not None and isinstance(eff.get("self._shifts"), sp.Basic):
+        s_eff, t_eff, shj, tsj = conv
+        raw_s, raw_t = eff["self._shifts"], eff.get("self._thetaShifts")
+        eff["self._shifts"] = sp.simplify(s_eff.subs(shj, raw_s))
+        if isinstance(raw_t, sp.Basic):
+            eff["self._thetaShifts"] = sp.simplify(t_eff.subs({tsj: raw_t, shj: raw_s}))
+        conv_note = (f" [the kernel reads the tables as effective cell shift {s_eff}, effective theta shift {t_eff}; table entries: "
+                     f"shifts = {raw_s}, thetaShifts = {raw_t}]")
+    up = lambda key, dflt: eff.get(key) if eff.get(key) is not None else dflt
     spec = [
         ("bz", lambda: bz, bz, "b_z = 1/sqrt(1 + (r iota(r)/R0)^2)"),
         ("dtheta", lambda: dz * iota(r) / R0, dz * iota(r) / R0, "theta shift per cell = dz iota(r)/R0"),
@@ -285,12 +489,13 @@ def lagrange_points(chk):
          "distance foot - stencil node = displacement - dz x shift (reference z cancels)"),
     ]
     results = ("self._shifts", "self._thetaShifts", "zDiff")
-    got_of = {key: n.env.get(key) for key, *_ in spec}
+    got_of = {key: eff.get(key) for key, *_ in spec}
     abs_ok = {key: (alg_equal(got_of[key], abs_want) if got_of[key] is not None else None) for key, _, abs_want, _ in spec}
     all_results_ok = all(abs_ok[k] for k in results)
     flagged = set()
     for key, rel_want, abs_want, what in spec:
         got = got_of[key]
+        note = conv_note if key in ("self._shifts", "self._thetaShifts", "zDiff") else ""
         if got is None:
             # an intermediate local that no longer exists is not needed when the stored tables agree with the absolute formulas
             ok_missing = True if key not in results and all_results_ok else None
@@ -300,8 +505,12 @@ def lagrange_points(chk):
             continue
         want = rel_want()
         ok_rel = alg_equal(got, want)
+        unwrapped = got.replace(lambda x: x.func == Wrap, lambda x: x.args[0]) if key == "self._thetaShifts" and got.has(Wrap) else None
         if abs_ok[key]:
-            ok, why = True, what
+            ok, why = True, what + note
+        elif unwrapped is not None and point_wrapped and alg_equal(unwrapped, want):
+            ok, why = True, (what + " - stored reduced modulo 2 pi; the kernel reduces theta_k + shift modulo 2 pi again, and "
+                             "(a + (b mod 2 pi)) mod 2 pi = (a + b) mod 2 pi" + note)
         elif key not in results and all_results_ok:
             ok, why = True, f"local `{key}` = {got} has another meaning than in the reference code; the stored tables agree with the formulas of the property"
         elif ok_rel and flagged:
@@ -309,7 +518,7 @@ def lagrange_points(chk):
         else:
             ok = False
             flagged.add(key)
-            why = f"`{key}` is {got}, expected {want if not ok_rel else abs_want} ({what})"
+            why = f"`{key}` is {got}, expected {want if not ok_rel else abs_want} ({what})" + note
             if got.has(TRUNC):
                 why += ": the conversion to int truncates towards zero, so for negative displacements the stencil is one cell off the floor"
         chk.ob("F6-lagrange-geometry", fn, f"{key} = ...", ok, why, file=U.ADV, func=q,
@@ -391,6 +600,8 @@ def sibling_geometry(chk):
         for nd in ast.walk(st):
             if isinstance(nd, ast.Subscript) and src(nd.value) == "eta_grid[0]" and isinstance(nd.slice, ast.Slice):
                 n.hooks[src(nd)] = r
+    # the radii the tables are built for (the local block or all of them: which, and how the tables are indexed, is engine C's subject)
+    n.hooks.setdefault("eta_grid[0]", r)
     # `constants.iota(x)` is the rotational transform at x
     n.env["constants.iota"] = iota
     bzs = [st for st in stmts if isinstance(st, ast.Assign) and src(st.targets[0]) == "self._bz"]
@@ -409,14 +620,16 @@ def sibling_geometry(chk):
     params = [a.arg for a in fl.args.args]
     th, zd = sp.symbols("theta z_diff", real=True)
     ok2, why2 = None, "fieldline(theta, z_diff, iota, r, R0): signature or body outside the extractable fragment"
+    moved = ""
     if params == ["theta", "z_diff", "iota", "r", "R0"]:
-        n2 = NpSym(env={"theta": th, "z_diff": zd, "r": r, "R0": R0, "iota": iota})
+        n2 = NpSym(env={"theta": th, "z_diff": zd, "r": r, "R0": R0, "iota": iota, "fmod": FMOD, "trunc": TRUNC, "fix": TRUNC,
+                        "remainder": lambda a, b: Wrap(a) if sp.simplify(b - 2 * PI) == 0 else Function("mod")(a, b)})
         body = [s_ for s_ in fl.body if not (isinstance(s_, ast.Expr) and isinstance(s_.value, ast.Constant))]
         ret = body[-1] if body and isinstance(body[-1], ast.Return) and body[-1].value is not None else None
         if ret is not None and all(isinstance(s_, (ast.Assign, ast.With)) for s_ in body[:-1]):
             n2.run(body[:-1])
             try:
-                got2 = n2.ev(ret.value)
+                got2 = floor_mod_normal(n2.ev(ret.value))
                 line = th + iota(r) * zd / R0
                 if alg_equal(got2, Wrap(line)):
                     ok2 = True
@@ -428,14 +641,89 @@ def sibling_geometry(chk):
                                 "not by a modulo: when the field line winds a full poloidal turn or more over the stencil "
                                 "(|iota dz k/R0| >= 2 pi) the result stays outside the domain of the periodic theta-spline, which is then "
                                 "evaluated out of range")
+                    elif got2.func == FMOD and alg_equal(got2.args[0], line) and sp.simplify(got2.args[1] - 2 * PI) == 0:
+                        why2 = ("the angle theta + iota(r) z_diff/R0 is reduced with fmod, the remainder that keeps the sign of the dividend: a "
+                                "negative angle (backward stencil points of the first theta nodes when iota > 0, forward ones when iota < 0) "
+                                "stays in (-2 pi, 0) instead of being mapped to [0, 2 pi), so the periodic theta-spline, which does not wrap its "
+                                "argument, is evaluated outside its domain")
+                    elif got2.has(TRUNC) and alg_equal(got2.subs(TRUNC(line / (2 * PI)), sp.floor(line / (2 * PI))), line - 2 * PI * sp.floor(line / (2 * PI))):
+                        why2 = ("the angle is reduced by subtracting 2 pi x the quotient TRUNCATED towards zero: negative angles stay negative "
+                                "instead of being mapped to [0, 2 pi); the periodic theta-spline is evaluated outside its domain")
                     elif not got2.has(Wrap) and not got2.has(ITE) and alg_equal(got2, line):
                         why2 = ("the angle theta + iota(r) z_diff/R0 is not reduced modulo 2 pi: the theta-spline is evaluated outside its "
                                 "periodic domain")
+                        # caller and helper are one unit: the reduction may have moved to the callers
+                        wrapped_by = _callers_reduce_mod_2pi(chk, "fieldline")
+                        if wrapped_by:
+                            ok2 = True
+                            why2 = None
+                            moved = f"; the reduction modulo 2 pi is applied by the caller(s) `{wrapped_by}`"
+                        else:
+                            later = _reduced_where_read(chk)
+                            if later:
+                                ok2 = None
+                                why2 = (f"fieldline no longer reduces the angle modulo 2 pi; a reduction modulo 2 pi is applied where the angles "
+                                        f"are used (`{later[:70]}`): whether every use is covered is not decided")
             except Undecided as e:
                 why2 = f"field line not extractable: {e}"
     chk.ob("F6-sibling-geometry", fl, "fieldline(theta, z_diff, iota, r, R0)", ok2,
-           "field line: theta + iota(r) z_diff / R0 (mod 2 pi) - the same pitch iota/R0 as the flux-surface theta shifts"
+           "field line: theta + iota(r) z_diff / R0 (mod 2 pi) - the same pitch iota/R0 as the flux-surface theta shifts" + moved
            if ok2 else why2, file=U.ADV, func="fieldline")
+
+
+def _reduced_where_read(chk):
+    """a `... % (2 pi)` / np.mod(..., 2 pi) over the stored field-line angles in a method of ParallelGradient ('' when there is none)"""
+    mod = chk.mod(U.ADV)
+    try:
+        cls = mod.cls("ParallelGradient")
+    except AnalysisError:
+        return ""
+    for n in ast.walk(cls):
+        arg = n.left if isinstance(n, ast.BinOp) and isinstance(n.op, ast.Mod) else \
+            (n.args[0] if isinstance(n, ast.Call) and src(n.func) in ("np.mod", "np.remainder") and len(n.args) == 2 else None)
+        if arg is not None and any(isinstance(x, (ast.Name, ast.Attribute)) and src(x).split(".")[-1].lstrip("_") == "thetaVals" for x in ast.walk(arg)):
+            if "pi" in src(n):
+                return src(n)
+    return ""
+
+
+def _callers_reduce_mod_2pi(chk, fname):
+    """source text of the calls of module function `fname` when EVERY one of them is directly reduced modulo 2 pi by its caller
+    (`f(...) % (2*pi)`, np.mod(f(...), 2*pi), np.remainder), else ''"""
+    mod = chk.mod(U.ADV)
+    calls = [c for c in ast.walk(mod.tree) if isinstance(c, ast.Call) and isinstance(c.func, ast.Name) and c.func.id == fname]
+    if not calls:
+        return ""
+
+    def two_pi(e):
+        try:
+            return sp.simplify(NpSym().ev(e) - 2 * PI) == 0
+        except Undecided:
+            return False
+    out = []
+    for c in calls:
+        p_ = parent(c)
+        if isinstance(p_, ast.BinOp) and isinstance(p_.op, ast.Mod) and p_.left is c and two_pi(p_.right):
+            out.append(src(p_))
+        elif isinstance(p_, ast.Call) and src(p_.func) in ("np.mod", "np.remainder", "numpy.mod") and len(p_.args) == 2 and p_.args[0] is c and two_pi(p_.args[1]):
+            out.append(src(p_))
+        else:
+            return ""
+    return "; ".join(x[:60] for x in out)
+
+
+FMOD = Function("fmod")
+
+
+def floor_mod_normal(e):
+    """x - 2 pi floor(x / (2 pi)) is x mod 2 pi"""
+    if not isinstance(e, sp.Basic) or not e.has(sp.floor):
+        return e
+    for fl in e.atoms(sp.floor):
+        x = sp.simplify(fl.args[0] * 2 * PI)
+        if sp.simplify(e - (x - 2 * PI * fl)) == 0:
+            return Wrap(x)
+    return e
 
 
 def _first_branch(e):
@@ -462,6 +750,10 @@ def _writer_diagnosis(vals, keys, want_key, want_val, congruent):
             out.append("the evaluation point theta_k + thetaShifts[j] is brought back to [0, 2 pi) by adding or subtracting at most one "
                        "period, not by a modulo: thetaShifts = (iota dz/R0) x shift is unbounded, so when the field line winds a full "
                        "poloidal turn or more the theta-spline is evaluated outside its periodic domain")
+        elif pt is not None and pt.func == FMOD and alg_equal(pt.args[0], wpt) and sp.simplify(pt.args[1] - 2 * PI) == 0:
+            out.append("the evaluation point theta_k + thetaShifts[j] is reduced with fmod, the remainder that keeps the sign of the dividend: "
+                       "negative angles stay in (-2 pi, 0) instead of being mapped to [0, 2 pi), the periodic theta-spline is evaluated outside "
+                       "its domain")
         elif pt is not None and not pt.has(Wrap) and alg_equal(pt, wpt):
             out.append("the evaluation point theta_k + thetaShifts[j] is not reduced modulo 2 pi")
         else:
@@ -609,6 +901,17 @@ def _h_mod(ex, call):
     return ex.binop(ast.Mod(), a, b, call)
 
 
+def _h_fmod(ex, call):
+    """np.fmod(a, b) / math.fmod(a, b): the remainder with the sign of the dividend (NOT the `%` of Python)"""
+    from ..symx import Arr, Vec, _elem
+    if len(call.args) != 2 or call.keywords:
+        raise Undecided("fmod arguments")
+    a, b = ex.ev(call.args[0]), ex.ev(call.args[1])
+    if isinstance(a, (Arr, Vec)) or isinstance(b, (Arr, Vec)):
+        return Vec(lambda ix, a=a, b=b: FMOD(_elem(a, ix), _elem(b, ix)))
+    return FMOD(a, b)
+
+
 def _sums_from_zero(e):
     """every Sum over k = a .. hi with a small literal a > 0 written as the Sum from 0 minus its first a terms (one canonical lower limit,
     so that `s = c0 v0; for k in 1..` and `s = 0; for k in 0..` have the same normal form)"""
@@ -624,6 +927,195 @@ def _sums_from_zero(e):
     return e.replace(lambda x: isinstance(x, sp.Sum), fix)
 
 
+# ------------------------------------------------------------------ caller + callee as one unit
+def single_defs(fn):
+    """locals of a method that are bound exactly once by a plain assignment (not loop targets, not parameters)"""
+    stores = {}
+    for x in ast.walk(fn):
+        if isinstance(x, ast.Name) and isinstance(x.ctx, ast.Store):
+            stores[x.id] = stores.get(x.id, 0) + 1
+    params = {a.arg for a in fn.args.args}
+    return {st.targets[0].id: st.value for st in ast.walk(fn) if isinstance(st, ast.Assign) and len(st.targets) == 1
+            and isinstance(st.targets[0], ast.Name) and stores.get(st.targets[0].id) == 1 and st.targets[0].id not in params}
+
+
+def resolved(e, defs, depth=0):
+    """copy of an expression in which single-assignment locals stand for their defining expressions"""
+    class R(ast.NodeTransformer):
+        def visit_Name(self, node):
+            if isinstance(node.ctx, ast.Load) and node.id in defs and depth < 6:
+                return resolved(defs[node.id], defs, depth + 1)
+            return node
+    return R().visit(copy.deepcopy(e))
+
+
+def table_alloc(chk):
+    """{'pos': {'z': k, 'theta': k, 'stencil': k}, 'node', 'p_ok', 'n_ok', 'pts', 'npt'} read off the constructor: which axis of
+    self._LagrangeVals has which extent (cached)"""
+    from ..core import same_expr
+    cache = chk.__dict__.setdefault("_c10_alloc", {})
+    if cache:
+        return cache
+    init = chk.func(U.ADV, f"{CLS}.__init__")
+    vals = {}
+    for st in init.body:
+        if isinstance(st, ast.Assign) and len(st.targets) == 1 and src(st.targets[0]) in ("self._points", "self._nPoints", "self._LagrangeVals"):
+            vals.setdefault(src(st.targets[0]), []).append(st)
+    cache.update({"init": init, "vals": vals, "pos": None})
+    if all(len(vals.get(k, [])) == 1 for k in ("self._points", "self._nPoints", "self._LagrangeVals")):
+        pts, npt, tab = (vals[k][0].value for k in ("self._points", "self._nPoints", "self._LagrangeVals"))
+        cache["pts"], cache["npt"] = pts, npt
+        cache["p_ok"] = same_expr(pts, "eta_grid[1:3]") or same_expr(pts, "(eta_grid[1], eta_grid[2])") or same_expr(pts, "[eta_grid[1], eta_grid[2]]")
+        cache["n_ok"] = same_expr(npt, "(self._points[0].size, self._points[1].size)") or same_expr(npt, "(len(self._points[0]), len(self._points[1]))")
+        shape = tab.args[0] if isinstance(tab, ast.Call) and src(tab.func) in ("np.ndarray", "np.empty", "np.zeros") and tab.args else None
+        if isinstance(shape, (ast.List, ast.Tuple)) and len(shape.elts) == 3:
+            pos = {}
+            for k_, x in enumerate(shape.elts):
+                for role, forms in (("z", ("self._nPoints[1]", "self._points[1].size", "len(self._points[1])")),
+                                    ("theta", ("self._nPoints[0]", "self._points[0].size", "len(self._points[0])")),
+                                    ("stencil", ("self._zLagrangePts", "zDegree + 1"))):
+                    if any(same_expr(x, f_) for f_ in forms):
+                        pos.setdefault(role, []).append(k_)
+            if all(len(pos.get(r_, [])) == 1 for r_ in ("z", "theta", "stencil")):
+                cache["pos"] = {r_: pos[r_][0] for r_ in pos}
+                cache["node"] = vals["self._LagrangeVals"][0]
+    return cache
+
+
+CANON_ARRAYS = {"self._LagrangeVals": "vals", "self._thetaSpline.basis.knots": "kts", "self._thetaSpline.coeffs": "coeffs"}
+CANON_SCALARS = {"self._thetaSpline.basis.degree": "deg", "self._thetaSpline.basis.cubic_uniform": "cubic_uniform_splines"}
+CANON_ROWS = {"self._shifts": "shifts", "self._thetaShifts": "thetaShifts", "self._lagrangeCoeffs": "lagrangeCoeffs"}
+
+
+def step_call_model(chk):
+    """the call of get_lagrange_vals in FluxSurfaceAdvection.step seen together with what step computes for it: single-assignment
+    locals are written out, the per-(r, v) rows of the tables, the theta nodes, the value table, the spline data, the counter of
+    the loop over the z columns and the numbers of points become the canonical quantities the kernel specification is written in.
+    -> {'call', 'call_resolved', 'loop', 'bind' (wrapper formal -> resolved actual), 'values' (wrapper formal -> symbolic value),
+        'why' (formal -> reason its value was not followed)} or None"""
+    from ..symx import Arr, Vec
+    cache = chk.__dict__.setdefault("_c10_call", {})
+    if "model" in cache:
+        return cache["model"]
+    cache["model"] = None
+    fn = chk.func(U.ADV, f"{CLS}.step")
+    kmod = chk.mod(U.ADVK)
+    calls = [c for c in ast.walk(fn) if isinstance(c, ast.Call) and isinstance(c.func, ast.Name) and c.func.id == "get_lagrange_vals"]
+    if len(calls) != 1:
+        return None
+    c1 = calls[0]
+    defs = single_defs(fn)
+    c1r = ast.Call(func=c1.func, args=[resolved(a, defs) for a in c1.args],
+                   keywords=[ast.keyword(arg=k.arg, value=resolved(k.value, defs)) for k in c1.keywords])
+    ast.copy_location(c1r, c1)
+    for a0, a1 in zip(list(c1.args) + [k.value for k in c1.keywords], list(c1r.args) + [k.value for k in c1r.keywords]):
+        for x in ast.walk(a1):
+            ast.copy_location(x, a0)
+    ast.fix_missing_locations(c1r)
+    wformals = [a.arg for a in kmod.func("get_lagrange_vals").args.args]
+    b = agree.bind_call(c1r, wformals) or {}
+    lp = None
+    p_ = parent(c1)
+    while p_ is not None and p_ is not fn:
+        if isinstance(p_, ast.For) and isinstance(p_.target, ast.Name):
+            lp = p_
+        p_ = parent(p_)
+    al = table_alloc(chk)
+    pos = al.get("pos")
+    sizes = {}
+    if pos:
+        sizes = {0: Symbol(f"n{pos['theta']}_vals", integer=True, positive=True), 1: Symbol(f"n{pos['z']}_vals", integer=True, positive=True)}
+    iv = lp.target.id if lp is not None else None
+
+    class Canon(ast.NodeTransformer):
+        def visit_Subscript(self, node):
+            s_ = src(node.value)
+            if s_ in CANON_ROWS and not isinstance(node.slice, ast.Slice):
+                return ast.copy_location(ast.Name(id=CANON_ROWS[s_], ctx=ast.Load()), node)
+            if src(node) == "self._points[0]":
+                return ast.copy_location(ast.Name(id="qVals", ctx=ast.Load()), node)
+            if s_ == "self._nPoints" and isinstance(node.slice, ast.Constant) and node.slice.value in (0, 1):
+                return ast.copy_location(ast.Name(id=f"__n{node.slice.value}", ctx=ast.Load()), node)
+            return self.generic_visit(node)
+
+        def visit_Attribute(self, node):
+            s_ = src(node)
+            if s_ in CANON_ARRAYS or s_ in CANON_SCALARS:
+                return ast.copy_location(ast.Name(id=(CANON_ARRAYS.get(s_) or CANON_SCALARS.get(s_)), ctx=ast.Load()), node)
+            if s_ in ("self._points[0].size", "self._points[1].size"):
+                return ast.copy_location(ast.Name(id=f"__n{s_[13]}", ctx=ast.Load()), node)
+            return self.generic_visit(node)
+
+        def visit_Call(self, node):
+            if src(node) in ("len(self._points[0])", "len(self._points[1])"):
+                return ast.copy_location(ast.Name(id=f"__n{src(node)[17]}", ctx=ast.Load()), node)
+            # a change of element type / memory order of a table row does not change which quantity it is
+            if isinstance(node.func, ast.Attribute) and node.func.attr in ("astype", "copy", "view") and len(node.args) <= 1:
+                return self.visit(node.func.value)
+            if src(node.func) in ("np.ascontiguousarray", "np.asarray", "np.array", "np.asfortranarray") and len(node.args) == 1 and not node.keywords:
+                return self.visit(node.args[0])
+            return self.generic_visit(node)
+
+        def visit_Name(self, node):
+            if iv is not None and node.id == iv:
+                return ast.copy_location(ast.Name(id="i", ctx=ast.Load()), node)
+            return node
+    env = {nm: Arr(nm) for nm in list(CANON_ARRAYS.values()) + ["shifts", "thetaShifts", "lagrangeCoeffs", "qVals"]}
+    env.update({nm: Symbol(nm, integer=True) for nm in CANON_SCALARS.values()})
+    env["i"] = Symbol("i", integer=True)
+    for k_, v_ in sizes.items():
+        env[f"__n{k_}"] = v_
+    from ..symx import SymExec as _SE
+    ex0 = _SE(fn, env, calls={"mod": _h_mod, "remainder": _h_mod})
+    values, why = {}, {}
+    for f_, a_ in b.items():
+        try:
+            from .C05 import library_forms
+            v = ex0.ev(library_forms(Canon().visit(copy.deepcopy(a_))))
+            if isinstance(v, Vec):
+                # an element-wise expression over the canonical arrays: an array whose generic element is that expression and whose
+                # length is that of its array operands
+                jj = Symbol("_jj", integer=True)
+                el = v.f((jj,))
+                names = sorted({str(a.func) for a in el.atoms(sp.Function) if a.args == (jj,) and str(a.func) in env})
+                arr_ = Arr(f_, generic=lambda ix, v=v: v.f(tuple(ix)))
+                if names:
+                    arr_.length = Symbol(f"n0_{names[0]}", integer=True, positive=True)
+                v = arr_
+            values[f_] = v
+        except Undecided as e:
+            why[f_] = f"`{src(a_)[:60]}`: {e}"
+    model = {"call": c1, "call_resolved": c1r, "loop": lp, "bind": b, "values": values, "why": why, "wformals": wformals, "defs": defs}
+    cache["model"] = model
+    return model
+
+
+def general_overrides(chk, wrapper, general, model):
+    """values of the general routine's parameters as handed through the dispatch wrapper by the call in step:
+    (overrides for make_args, {general formal: reason} for the ones not followed)"""
+    kmod = chk.mod(U.ADVK)
+    w, g = kmod.func(wrapper), kmod.func(general)
+    wf = [a.arg for a in w.args.args]
+    gf = [a.arg for a in g.args.args]
+    inner = [c for c in ast.walk(w) if isinstance(c, ast.Call) and isinstance(c.func, ast.Name) and c.func.id == general]
+    ov, why = {}, {}
+    if model is None or not inner:
+        return ov, why
+    b = agree.bind_call(inner[0], gf) or {}
+    for f_, a_ in b.items():
+        if isinstance(a_, ast.Name) and a_.id in wf:
+            if a_.id in model["values"]:
+                ov[f_] = model["values"][a_.id]
+            elif a_.id in model["why"]:
+                # not followed: an opaque value under a name of its own, so that it cannot pass for the quantity the parameter is
+                # named after
+                from ..symx import Arr
+                why[f_] = model["why"][a_.id]
+                ann = next((src(x.annotation) for x in g.args.args if x.arg == f_ and x.annotation is not None), "")
+                ov[f_] = Arr("unfollowed_" + f_) if "[" in ann else Symbol("unfollowed_" + f_, integer="int" in ann, real=True)
+    return ov, why
+
+
 AXES = ("z row", "theta node", "stencil entry")
 
 
@@ -633,11 +1125,17 @@ def _axes_text(perm):
     return "[" + ", ".join(names[k] for k in range(3)) + "]"
 
 
-def kernels(chk):
-    import itertools
+def writer_rule(chk):
+    """the kernel that fills the table of field-line values, seen together with the call in step (cached; no obligation is recorded
+    here): {'ob': arguments of the F6-table-writer obligation, 'perm': axis roles or None, 'conv': None or (effective cell shift,
+    effective theta shift, shifts(j), thetaShifts(j)) when the kernel reads the shift tables with another convention than
+    row = (i - shifts[j]) mod nz, point = theta_k + thetaShifts[j]}"""
+    st_ = _store(chk)
+    if "_c10_writer" in st_:
+        return st_["_c10_writer"]
+    res = {"ob": None, "perm": None, "conv": None}
+    st_["_c10_writer"] = res
     kmod = chk.mod(U.ADVK)
-    lay = chk.__dict__.setdefault("_c10_layout", {})
-    # writer: general_get_lagrange_vals
     fn = kmod.func("general_get_lagrange_vals")
     chk.functions.add(f"{U.ADVK}:general_get_lagrange_vals")
     label_w = "vals[(i - shifts[j]) % nz, k, j] = S(theta_k + thetaShifts[j])  (axes in the table's own order)"
@@ -646,16 +1144,39 @@ def kernels(chk):
         fn_s, why_s = structured(fn)
         if why_s:
             raise Undecided(why_s)
-        args = make_args(fn_s, funcs={"eval_spline_1d_vector": _vector_into_view, "eval_spline_1d_scalar": h_scalar1})
+        model = step_call_model(chk)
+        ov, ov_why = general_overrides(chk, "get_lagrange_vals", "general_get_lagrange_vals", model)
+        gformals = [a.arg for a in fn_s.args.args]
+        ov = {k_: v_ for k_, v_ in ov.items() if k_ in gformals}
+        args = make_args(fn_s, funcs={"eval_spline_1d_vector": _vector_into_view, "eval_spline_1d_scalar": h_scalar1}, overrides=ov)
         handlers = dict(SPLINE_HANDLERS)
         handlers["eval_spline_1d_vector"] = _vector_into_view
         handlers["mod"] = handlers["remainder"] = _h_mod
+        handlers["fmod"] = _h_fmod
         ex = SymExec(fn_s, args, calls=handlers)
         ex.run()
-        vals = ex.env["vals"]
+        from ..symx import Arr as _Arr
+        vals = next((v_ for v_ in ex.env.values() if isinstance(v_, _Arr) and v_.name == "vals"), None)
+        if vals is None or not hasattr(vals, "cells"):
+            raise Undecided("the value table is not among the arrays the kernel writes")
         keys = list(vals.cells)
-        i = args["i"]
-        sh, ts, qv = args["shifts"].fn, args["thetaShifts"].fn, args["qVals"].fn
+        # the specification is written in the quantities of the call in step (caller and kernel are one unit): the counter i of the loop
+        # over the z columns, the rows [rIdx, cIdx] of the shift tables, the theta nodes
+        i = Symbol("i", integer=True)
+        sh, ts, qv = Function("shifts"), Function("thetaShifts"), Function("qVals")
+        canonical = {"shifts", "thetaShifts", "qVals", "vals", "kts", "coeffs", "lagrangeCoeffs"}
+        # a parameter whose value at the call site was not followed must not decide the comparison
+        opaque = sorted({str(a.func) for key_ in keys for e_ in list(key_) + [vals.cells[key_]] for a in e_.atoms(sp.Function)
+                         if str(a.func) in gformals and str(a.func) not in canonical} |
+                        {str(x) for key_ in keys for e_ in list(key_) + [vals.cells[key_]] for x in e_.free_symbols
+                         if str(x) in gformals and str(x) not in ("i", "deg") and str(x) not in canonical})
+        opaque += sorted({str(a.func)[11:] for key_ in keys for e_ in list(key_) + [vals.cells[key_]] for a in e_.atoms(sp.Function)
+                          if str(a.func).startswith("unfollowed_")} |
+                         {str(x)[11:] for key_ in keys for e_ in list(key_) + [vals.cells[key_]] for x in e_.free_symbols
+                          if str(x).startswith(("unfollowed_", "arr_unfollowed_"))})
+        if opaque:
+            raise Undecided(f"the table entry depends on the kernel argument(s) {opaque} whose value at the call in step was not followed"
+                            + (f" ({'; '.join(ov_why.values())})" if ov_why else ""))
         perm = None
         if len(keys) == 1 and len(keys[0]) == 3:
             key, val = keys[0], vals.cells[keys[0]]
@@ -675,7 +1196,7 @@ def kernels(chk):
         nz = Symbol(f"n{perm[0]}_vals", integer=True, positive=True)
         want = {perm[0]: Function("mod")(i - sh(j), nz), perm[1]: k, perm[2]: j}
         want_key = tuple(want[a] for a in range(3))
-        fam = (Symbol("arr_kts"), args["deg"], Symbol("arr_coeffs"))
+        fam = (Symbol("arr_kts"), Symbol("deg", integer=True), Symbol("arr_coeffs"))
         want_val = S1(Wrap(qv(k) + ts(j)), 0, *fam)
 
         def congruent(a, b):
@@ -705,13 +1226,57 @@ def kernels(chk):
                 v2 = _V()
                 v2.cells = {kk: vals.cells[keys[0]]} if kk is not None and len(keys) == 1 else dict(vals.cells)
                 why = _writer_diagnosis(v2, [kk] if kk is not None and len(keys) == 1 else keys, wk, want_val, congruent)
+        if not ok and roles_known and len(keys) == 1:
+            # another CONVENTION of the shift tables (sign, offset) is not a defect by itself: row = i - g(shifts[j]), point =
+            # theta_k + h(thetaShifts[j]) with g, h functions of the table entry alone; the tables are then compared under this
+            # convention (F6-lagrange-geometry: effective cell shift / effective theta shift)
+            strip = lambda e: e.replace(lambda x: x.func == Function("mod") and x.args[1] == nz, lambda x: x.args[0])
+            val = vals.cells[keys[0]]
+            arg = val.args[0] if isinstance(val, sp.Basic) and val.func == S1 and val.args else None
+            if arg is not None and arg.func == Wrap and all(alg_equal(keys[0][ax], want_key[ax]) for ax in (perm[1], perm[2])):
+                s_eff = sp.simplify(i - strip(keys[0][perm[0]]))
+                t_eff = sp.simplify(arg.args[0] - qv(k))
+                X_, Y_ = Symbol("_tab_shift"), Symbol("_tab_theta")
+
+                def only(e, allowed):
+                    """e is a function of the table entries in `allowed` alone"""
+                    e2 = e.subs({sh(j): X_, ts(j): Y_})
+                    return not (e2.free_symbols - allowed) and not [a_ for a_ in e2.atoms(sp.Function) if not isinstance(a_, (sp.floor, sp.ceiling))]
+                if only(s_eff, {X_}) and s_eff.has(sh(j)) and only(t_eff, {X_, Y_}) and t_eff.has(ts(j)) \
+                        and alg_equal(val, S1(Wrap(qv(k) + t_eff), 0, *fam)):
+                    res["conv"] = (s_eff, t_eff, sh(j), ts(j))
+                    ok = True
+                    why = (f"the value for source row i and stencil entry j is stored at row (i - S_j) mod nz and evaluated at theta_k + T_j with "
+                           f"the effective cell shift S_j = {s_eff} and the effective theta shift T_j = {t_eff} (a convention of the shift tables "
+                           f"other than S_j = shifts[j], T_j = thetaShifts[j]); the tables are compared with the formulas of the property under this "
+                           f"convention (F6-lagrange-geometry); the table is written as {_axes_text(perm)}")
         if ok or roles_known:
-            lay["writer"] = perm
-        chk.ob("F6-table-writer", fn, label_w, ok, why, file=U.ADVK, func="general_get_lagrange_vals",
-               facts={"key": str(keys[0]) if keys else "", "value": str(vals.cells[keys[0]]) if keys else "", "axes": _axes_text(perm)})
-    except Undecided as e:
-        chk.ob("F6-table-writer", fn, "general_get_lagrange_vals", None, f"outside the extractable fragment: {e}", file=U.ADVK,
-               func="general_get_lagrange_vals")
+            res["perm"] = perm
+        v_ = vals.cells[keys[0]] if len(keys) == 1 else None
+        res["point_wrapped"] = bool(ok and isinstance(v_, sp.Basic) and v_.func == S1 and v_.args and v_.args[0].func == Wrap)
+        res["ob"] = dict(rule="F6-table-writer", node=fn, construct=label_w, ok=ok, why=why,
+                         facts={"key": str(keys[0]) if keys else "", "value": str(vals.cells[keys[0]]) if keys else "", "axes": _axes_text(perm)})
+    except (Undecided, KeyError) as e:
+        res["ob"] = dict(rule="F6-table-writer", node=fn, construct="general_get_lagrange_vals", ok=None,
+                         why="outside the extractable fragment: " + (f"the kernel has no parameter {e}" if isinstance(e, KeyError) else str(e)), facts={})
+    except AnalysisError:
+        raise
+    except Exception as e:          # noqa: BLE001 - a form the symbolic model cannot digest is undecided, the other rules keep their verdicts
+        res["ob"] = dict(rule="F6-table-writer", node=fn, construct="general_get_lagrange_vals", ok=None,
+                         why=f"outside the extractable fragment: {type(e).__name__}: {e}", facts={})
+    return res
+
+
+def kernels(chk):
+    import itertools
+    kmod = chk.mod(U.ADVK)
+    lay = chk.__dict__.setdefault("_c10_layout", {})
+    # writer: general_get_lagrange_vals
+    wr = writer_rule(chk)
+    if wr["perm"] is not None:
+        lay["writer"] = wr["perm"]
+    o_ = wr["ob"]
+    chk.ob(o_["rule"], o_["node"], o_["construct"], o_["ok"], o_["why"], file=U.ADVK, func="general_get_lagrange_vals", facts=o_["facts"])
     # reader: flux_advection
     fr = kmod.func("flux_advection")
     chk.functions.add(f"{U.ADVK}:flux_advection")
@@ -740,8 +1305,9 @@ def kernels(chk):
         chk.ob("F6-table-reader", fr, "f[j,i] = sum_k coeffs[k] vals[z i, theta j, stencil k]  (axes in the table's own order)", ok,
                f"new value at (theta j, z i) = Lagrange-weighted sum over the stencil of the entries of row i; the table is read as {_axes_text(rperm)}"
                if ok else f"reader computes {got}", file=U.ADVK, func="flux_advection")
-    except Undecided as e:
-        chk.ob("F6-table-reader", fr, "flux_advection", None, f"outside the extractable fragment: {e}", file=U.ADVK, func="flux_advection")
+    except (Undecided, KeyError) as e:
+        chk.ob("F6-table-reader", fr, "flux_advection", None, "outside the extractable fragment: " +
+               (f"the kernel has no parameter {e}" if isinstance(e, KeyError) else str(e)), file=U.ADVK, func="flux_advection")
     agree.check_wrapper_dispatch(chk, kmod, "get_lagrange_vals", "general_get_lagrange_vals")
 
 
@@ -771,14 +1337,32 @@ def step_wiring(chk):
     if len(calls) != 2:
         raise AnalysisError("C10: kernel calls not found in FluxSurfaceAdvection.step")
     c1 = calls["get_lagrange_vals"]
-    agree.check_roles(chk, U.ADV, f"{CLS}.step", c1, [a.arg for a in kmod.func("get_lagrange_vals").args.args], {
+    # single-assignment locals of step stand for their definitions (`shifts = self._shifts[rIdx, cIdx]` before the loop)
+    try:
+        model = step_call_model(chk)
+    except AnalysisError:
+        raise
+    except Exception:          # noqa: BLE001 - the call is then taken as written
+        model = None
+    defs = model["defs"] if model else {}
+    c1r = model["call_resolved"] if model else c1
+    agree.check_roles(chk, U.ADV, f"{CLS}.step", c1r, [a.arg for a in kmod.func("get_lagrange_vals").args.args], {
         "i": "i", "self._shifts[rIdx, cIdx]": "shifts", "self._LagrangeVals": "vals", "self._points[0]": "qVals",
         "self._thetaShifts[rIdx, cIdx]": "thetaShifts", "self._thetaSpline.basis.knots": "kts",
         "self._thetaSpline.basis.degree": "deg", "self._thetaSpline.coeffs": "coeffs",
         "self._thetaSpline.basis.cubic_uniform": "cubic_uniform_splines"})
     c2 = calls["flux_advection"]
     from ..core import same_expr, enclosing_stmt
-    b1 = agree.bind_call(c1, [a.arg for a in kmod.func("get_lagrange_vals").args.args]) or {}
+    b1 = agree.bind_call(c1r, [a.arg for a in kmod.func("get_lagrange_vals").args.args]) or {}
+    # the (r, v) entry of the shift tables the call works with, wherever in its arguments the tables are subscripted
+    def entry_of(sub):
+        """the index expressions that select the (r, v) entry of a per-(r, v) table, whole-axis slices left out and the order ignored:
+        WHICH axis each of them subscripts is engine C's subject (C-window), here only the values matter"""
+        items = list(sub.slice.elts) if isinstance(sub.slice, ast.Tuple) else [sub.slice]
+        full = lambda i_: isinstance(i_, ast.Slice) and i_.lower is None and i_.upper is None and i_.step is None
+        return ", ".join(sorted(src(i_) for i_ in items if not full(i_) and not (isinstance(i_, ast.Constant) and i_.value is Ellipsis)))
+    entry = sorted({entry_of(n_) for n_ in ast.walk(c1r) if isinstance(n_, ast.Subscript) and src(n_.value) in ("self._shifts", "self._thetaShifts")
+                    and not isinstance(n_.slice, ast.Slice)})
     # flux_advection(nq, nr, f, coeffs, vals): `*self._nPoints` stands for its two components
     actual = []
     for x in c2.args:
@@ -791,10 +1375,10 @@ def step_wiring(chk):
     b2 = None if any(isinstance(x, ast.Starred) for x in actual) else agree.bind_call(call2, fformals)
     ok, bad = None, None
     if b2 is not None and set(b2) == set(fformals) == {"nq", "nr", "f", "coeffs", "vals"}:
-        sh = b1.get("shifts")
-        idx = src(sh.slice) if isinstance(sh, ast.Subscript) and same_expr(sh.value, "self._shifts") else None
+        idx = entry[0] if len(entry) == 1 else None
+        b2 = {k_: resolved(v_, defs) for k_, v_ in b2.items()}
         cf = b2["coeffs"]
-        cidx = src(cf.slice) if isinstance(cf, ast.Subscript) and same_expr(cf.value, "self._lagrangeCoeffs") else None
+        cidx = entry_of(cf) if isinstance(cf, ast.Subscript) and same_expr(cf.value, "self._lagrangeCoeffs") else None
         sizes = (same_expr(b2["nq"], "self._nPoints[0]"), same_expr(b2["nr"], "self._nPoints[1]"))
         rest = same_expr(b2["f"], "f") and same_expr(b2["vals"], "self._LagrangeVals")
         if all(sizes) and rest and idx is not None and cidx == idx:
@@ -804,6 +1388,9 @@ def step_wiring(chk):
         elif idx is not None and cidx is not None and cidx != idx:
             bad = (f"the weights are those of table entry [{cidx}] while the stencil shifts and theta shifts are those of entry [{idx}]: "
                    "weights and shifts of different (r, v) surfaces are combined")
+        elif len(entry) > 1:
+            bad = (f"the stencil shifts and the theta shifts handed to get_lagrange_vals are those of different table entries {entry}: "
+                   "shifts of different (r, v) surfaces are combined")
         elif same_expr(b2["vals"], "self._lagrangeCoeffs[rIdx, cIdx]") or same_expr(b2["coeffs"], "self._LagrangeVals"):
             bad = "weights and value table are handed over in each other's position"
     chk.pat("E2-argument-role", c2, "flux_advection(*self._nPoints, f, coeffs[rIdx,cIdx], vals)", ok,
@@ -863,11 +1450,14 @@ def step_wiring(chk):
                     "advected values")
         elif len(ci) == 1 and len(ci[0].args) == 2 and same_expr(ci[0].func.value, "self._interpolator") and same_expr(ci[0].args[1], "self._thetaSpline"):
             col = ci[0].args[0]
-            i_ok = same_expr(b1.get("i"), iv) if b1.get("i") is not None else False
-            if same_expr(lp.iter, "range(self._nPoints[1])") and same_expr(col, f"f[:, {iv}]") and pos(ci[0]) < pos(c1) and i_ok \
+            # which table rows column i feeds is the writer rule's subject (F6-table-writer, caller and kernel as one unit); here: the
+            # call depends on the column counter at all
+            i_ok = any(isinstance(x_, ast.Name) and x_.id == iv for x_ in ast.walk(c1r))
+            it_ = resolved(lp.iter, defs)
+            if same_expr(it_, "range(self._nPoints[1])") and same_expr(col, f"f[:, {iv}]") and pos(ci[0]) < pos(c1) and i_ok \
                     and pos(lp) < pos(c2):
                 okl = True
-            elif same_expr(lp.iter, "range(self._nPoints[0])"):
+            elif same_expr(it_, "range(self._nPoints[0])"):
                 badl = "the loop runs over the number of theta points, not over the n_z columns of the slice: columns are missed or out of range"
             elif same_expr(col, f"f[{iv}, :]") or same_expr(col, f"f[{iv}]"):
                 badl = f"`{src(col)}` interpolates a row of the slice (fixed theta, along z) with the theta spline, not the z column {iv} along theta"
@@ -897,8 +1487,17 @@ def run(chk):
         "a conditional that cuts the local radii the tables are built for is decided under the condition's own assumption "
         "(F6-radial-table); dispatch, argument roles, interpolate-before-evaluate; "
         "index-space typing of the tables and of gridStep (engine C). Constants/linearity/shift identities are consequences "
-        "and are not decided separately; floor conventions are fixed by the stencil rule only.")
+        "and are not decided separately; floor conventions are fixed by the stencil rule only. The call in step and the kernel are one unit: "
+        "what step hands over (single-assignment locals written out, rows of the tables, loop counter, sizes) is substituted for the kernel's "
+        "parameters before the comparison, so a wrap / lookup moved between caller and kernel compares equal; an argument that cannot be "
+        "followed makes the rule undecided. The meaning of the shift tables is fixed by their reader: when the kernel reads them with "
+        "another convention (row = i - g(shifts[j]), point = theta_k + h(thetaShifts[j])) the effective shifts g, h of the stored formulas are "
+        "compared with the property (a consistent change of sign/offset holds, a one-sided one is reported with both sides). The guard of "
+        "a radial cut is read as a conjunction of facts (all equal / all zero / single radius) through not/and/or, np.all/any, ptp, "
+        "max==min, unique.")
     chk.in_file(U.ADV)
+    from .C05 import normalise_structures
+    normalise_structures(chk, U.ADV)
     lagrange_points(chk)
     sibling_geometry(chk)
     kernels(chk)
